@@ -18,11 +18,13 @@ CLAIMED = {
               "in every state reachable by any list of operations (get with any schedule and fault outcomes, remove, "
               "purge, reopen, touch, foreign file, crash at any elementary step); returned paths valid; hits not "
               "downloaded; size bound and enlargement rule; LRU prefix + minimality of eviction; requested files never "
-              "evicted; hits refreshed; foreign files untouched. The model is tied to the code by comparing, after every "
+              "evicted; hits refreshed; foreign files untouched; the completion order of the downloads (all that differs between "
+              "sequential, parallel and any thread schedule) enters the returned paths and the raised error only through "
+              "the set of downloads that ran. The model is tied to the code by comparing, after every "
               "operation of exhaustive short and long random histories, the full observable state of the real FileCache "
               "with the model's."),
         design="6/C18", technique="Lean 4 invariant proof by induction over operations + model/implementation correspondence",
-        note=PROOF_NOTE + " Not shown: real file-system timestamp granularity (logical clock installed by the harness), md5 collisions, HTTPS resource."),
+        note=PROOF_NOTE + " Not shown: real file-system timestamp granularity (logical clock installed by the harness), md5 collisions, HTTPS resource. Equality of the final *state* under two completion orders (up to the stamps of the downloaded files) is not a theorem: the schedule is an input of the model and both modes are compared with it on the real code."),
     "C19": dict(
         text=("Lean 4 theorems: at every crash point (any prefix of the elementary-action trace of any request, any fault "
               "outcome, any schedule) every file under a cache-pattern name is complete, post-processed and of the right "
@@ -150,11 +152,14 @@ CLAIMED = {
               "have nfft samples (nfft even, nfft <= L < nfft+2), time axis t/fs; |amplitude|^2 = area*E/2*|factor|^2 "
               "independent of the phase; the six transfer factors carry 1, w^2, cos^2, sin^2, w^2cos^2, w^2sin^2; scaling "
               "the density by c >= 0 scales amplitudes and series by sqrt c (linearity of the inverse transform); equal "
-              "phases give equal series. Correspondence: Float model of amplitudes + real inverse DFT against "
-              "surface_timeseries for all six components (phases drawn with the same default_rng call); the variance "
-              "clauses (Parseval), lengths, seeds and sqrt-scaling checked on the implementation."),
+              "phases give equal series; discrete Parseval for the real inverse DFT of the model (orthogonality of the "
+              "harmonics from the geometric sum of n-th roots of unity): the sample variance of the n samples is "
+              "2 sum_{k>=1} |a_k|^2 = sum_{k>=1} area_k E_k |factor_k|^2 whatever the phases, the zero-frequency bin only sets "
+              "the mean. Correspondence: Float model of amplitudes + real inverse DFT against surface_timeseries for all "
+              "six components (phases drawn with the same default_rng call); variance, lengths, seeds and sqrt-scaling "
+              "oracles on the implementation."),
         design="6/C16", technique="Lean 4 proof at ℝ + Float-model correspondence + variance oracle",
-        note=PROOF_NOTE + " The discrete Parseval identity (variance = sum of 2|a_k|^2) is checked numerically on every case, not yet proved in Lean; 'different seeds differ' is a statement about PCG64."),
+        note=PROOF_NOTE + " The Parseval theorem is for one amplitude per FFT bin (1D spectra, and 2D spectra after the code's sum over direction); 'different seeds differ' is a statement about PCG64 and is only sampled."),
     "C12": dict(
         text=("Lean 4 theorems: argmax returns a value that bounds every element and is attained, so the peak-method level of "
               "any spectrum with E f^p <= c everywhere and = c somewhere (a c f^-p range) is exactly c; scaling the spectrum by "
@@ -187,11 +192,14 @@ CLAIMED = {
               "meet the stopping rule (Newton, scipy) give moments within 2 atol of each other; every entry of mem2_jacobian "
               "equals the covariance sum(w T_m T_n) - sum(w T_m) sum(w T_n) under w = D*delta (so the mirrored lower triangle "
               "is exact and the matrix symmetric) and is the derivative (HasDerivAt) of moment_constraints m with respect to "
-              "multiplier n, the min-shift notwithstanding. Correspondence as C05; fidelity of Newton / scipy / MEM on "
+              "multiplier n, the min-shift notwithstanding; the first guess of rotated moments is the rotated first guess, the "
+              "exponent lambda.T(theta) of rotated multipliers is the exponent at theta - phi, so for any multipliers the MEM2 "
+              "distribution rotates by k bins with them on every uniform grid, and the approximate variant as a whole rotates "
+              "with its input (all N, theta0, k). Correspondence as C05; fidelity of Newton / scipy / MEM on "
               "von-Mises mixtures with spread >= 1.5 bins (N in 24,36,72,144), Newton-vs-scipy agreement, rotation by every k "
               "and mirror equivariance of all four variants, finite-difference Jacobian, on the implementation."),
         design="6/C06", technique="Lean 4 proof at ℝ (loop invariant, closed-form Jacobian, HasDerivAt) + Float-model correspondence + implementation oracles",
-        note=PROOF_NOTE + " That the solvers do converge on resolved inputs, MEM's discretisation bound (0.05, empirical) and rotation equivariance of whole solver runs are decided by the oracles only."),
+        note=PROOF_NOTE + " That the solvers do converge on resolved inputs, MEM's discretisation error (exact aliasing identity in the harness) and rotation equivariance of whole Newton / scipy / MEM runs are decided by the oracles only (the theorems cover the first guess, the distribution for any multipliers and the approximate variant)."),
     "C08": dict(
         text=("Lean 4 theorems at ℝ over the model of st4_wind_input / st4_wave_breaking / st6_wave_breaking / operations "
               "(one spatial point, wavenumbers and group velocities as inputs): the ST4 input of every bin is >= 0 for a "
